@@ -7,104 +7,153 @@ import (
 	"strings"
 )
 
-// frameObligations: every modelled heap location that existed at entry and is
-// not named by a modifies clause is unchanged at return.
-func (x *FnExec) frameObligations(fr *Frame, entry, rst *State, rg *Term, c *Contract, rv Value) {
-	tc := x.tc
+type modLoc struct {
+	prefix  string
+	place   *Place
+	sl      *SliceV // slice range (elem heap)
+	lo, hi  *Term
+	mapRef  *Term
+	mapKey  string
+	wholeKey bool
+	unknown bool // extent could not be evaluated (e.g. mentions the result inside a loop): covers everything under prefix kind
+}
+
+// modLocs evaluates the modifies clauses of the top-level contract in the entry state.
+func (x *FnExec) modLocs(fr *Frame, entry *State, c *Contract, rv Value, haveResult bool) []modLoc {
 	ev := x.specEnv(fr, entry, entry, c)
-	ev.bindResults(c, fr.fn.Signature.Results(), rv)
-	type modLoc struct {
-		prefix string
-		place  *Place
-		sl     *SliceV // slice range (elem heap)
-		lo, hi *Term
-		mapRef *Term
-		mapKey string
+	if haveResult {
+		ev.bindResults(c, x.topFn.Signature.Results(), rv)
 	}
 	var mods []modLoc
 	for _, m := range c.Modifies {
-		if ss, ok := m.E.(*SSlice); ok {
-			base := ev.eval(ss.X)
-			sl := base.v.(*SliceV)
-			et := base.t.Underlying().(*types.Slice).Elem()
-			lo, hi := x.refConst(0), sl.ln
-			if ss.Lo != nil {
-				lo = ev.evalInt(ss.Lo)
+		var ml modLoc
+		ok := func() (ok bool) {
+			defer func() {
+				if r := recover(); r != nil {
+					if _, isU := r.(unsupported); isU && !haveResult {
+						ok = false
+						return
+					}
+					panic(r)
+				}
+			}()
+			if ss, isSl := m.E.(*SSlice); isSl {
+				base := ev.eval(ss.X)
+				sl := base.v.(*SliceV)
+				et := base.t.Underlying().(*types.Slice).Elem()
+				ml = modLoc{prefix: "elem:" + typeKey(et), sl: sl}
+				ml.lo, ml.hi = x.refConst(0), sl.ln
+				if ss.Lo != nil {
+					ml.lo = ev.evalInt(ss.Lo)
+				}
+				if ss.Hi != nil {
+					ml.hi = ev.evalInt(ss.Hi)
+				}
+				return true
 			}
-			if ss.Hi != nil {
-				hi = ev.evalInt(ss.Hi)
+			p := ev.evalPlace(m.E)
+			if p == nil {
+				unsupp("modifies %s: not a location", m.Text)
 			}
-			mods = append(mods, modLoc{prefix: "elem:" + typeKey(et), sl: sl, lo: lo, hi: hi})
-			continue
-		}
-		p := ev.evalPlace(m.E)
-		if p == nil {
-			unsupp("modifies %s: not a location", m.Text)
-		}
-		prefix, t, _ := x.placeKey(p)
-		ml := modLoc{prefix: prefix, place: p}
-		if mt, ok := t.Underlying().(*types.Map); ok {
-			ml.mapRef = x.load(entry, p).(*Term)
-			ml.mapKey = typeKey(mt)
+			if p.kind == pkHeap && p.ref == nil {
+				// wildcard ghost(name, _): the whole ghost component may change
+				p.ref = x.refConst(0)
+				prefix, _, _ := x.placeKey(p)
+				ml = modLoc{prefix: prefix, wholeKey: true}
+				return true
+			}
+			prefix, t, _ := x.placeKey(p)
+			ml = modLoc{prefix: prefix, place: p}
+			if mt, isMap := t.Underlying().(*types.Map); isMap {
+				ml.mapRef = x.load(entry, p).(*Term)
+				ml.mapKey = typeKey(mt)
+			}
+			return true
+		}()
+		if !ok {
+			ml = modLoc{unknown: true}
 		}
 		mods = append(mods, ml)
 	}
+	return mods
+}
+
+func covers(prefix, key string) bool {
+	return key == prefix || strings.HasPrefix(key, prefix+".")
+}
+
+// frameCond: in heap component k, every location that existed at entry and is not in the
+// modifies set has its entry value in state st.  Returns nil if no condition applies.
+func (x *FnExec) frameCond(mods []modLoc, k string, entry, st *State) *Term {
+	tc := x.tc
+	for _, m := range mods {
+		if m.unknown {
+			return nil
+		}
+	}
+	for _, m := range mods {
+		if m.wholeKey && covers(m.prefix, k) {
+			return tc.True()
+		}
+	}
+	hs := x.heapSorts[k]
+	h0 := entry.getHeap(k, hs)
+	h1 := st.getHeap(k, hs)
+	if h0 == h1 {
+		return tc.True()
+	}
+	r := tc.BVar("r", x.refSort())
+	existed := tc.And(x.intLt(x.refConst(0), r), x.intLt(r, entry.alloc))
+	switch {
+	case strings.HasPrefix(k, "obj:"):
+		var exc []*Term
+		for _, m := range mods {
+			if m.place != nil && m.place.kind == pkHeap && covers(m.prefix, k) {
+				exc = append(exc, tc.Eq(r, m.place.ref))
+			}
+		}
+		return tc.Forall([]*Term{r}, tc.Implies(tc.And(existed, tc.Not(tc.Or(exc...))), tc.Eq(tc.Select(h1, r), tc.Select(h0, r))))
+	case strings.HasPrefix(k, "elem:"):
+		i := tc.BVar("i", x.refSort())
+		var exc []*Term
+		for _, m := range mods {
+			if m.sl != nil && covers(m.prefix, k) {
+				exc = append(exc, tc.And(tc.Eq(r, m.sl.arr), x.intLe(x.intAdd(m.sl.off, m.lo), i), x.intLt(i, x.intAdd(m.sl.off, m.hi))))
+			}
+			if m.place != nil && m.place.kind == pkElem && covers(m.prefix, k) {
+				exc = append(exc, tc.And(tc.Eq(r, m.place.arr), tc.Eq(i, m.place.idx)))
+			}
+		}
+		return tc.Forall([]*Term{r, i}, tc.Implies(tc.And(existed, tc.Not(tc.Or(exc...))), tc.Eq(tc.Select(tc.Select(h1, r), i), tc.Select(tc.Select(h0, r), i))))
+	case strings.HasPrefix(k, "mapdom:"), strings.HasPrefix(k, "mapval:"), strings.HasPrefix(k, "mapcard:"):
+		mk := k[strings.Index(k, ":")+1:]
+		var exc []*Term
+		for _, m := range mods {
+			if m.mapRef != nil && (mk == m.mapKey || strings.HasPrefix(mk, m.mapKey+".")) {
+				exc = append(exc, tc.Eq(r, m.mapRef))
+			}
+		}
+		return tc.Forall([]*Term{r}, tc.Implies(tc.And(existed, tc.Not(tc.Or(exc...))), tc.Eq(tc.Select(h1, r), tc.Select(h0, r))))
+	case strings.HasPrefix(k, "glob:"):
+		return tc.Eq(h1, h0)
+	}
+	return nil
+}
+
+// frameObligations: every modelled heap location that existed at entry and is
+// not named by a modifies clause is unchanged at return.
+func (x *FnExec) frameObligations(fr *Frame, entry, rst *State, rg *Term, c *Contract, rv Value) {
+	mods := x.modLocs(fr, entry, c, rv, true)
 	var keys []string
 	for k := range x.heapSorts {
 		keys = append(keys, k)
 	}
 	sort.Strings(keys)
-	covers := func(prefix, key string) bool {
-		return key == prefix || strings.HasPrefix(key, prefix+".")
-	}
-	n := 0
 	for _, k := range keys {
-		hs := x.heapSorts[k]
-		h0 := entry.getHeap(k, hs)
-		h1 := rst.getHeap(k, hs)
-		if h0 == h1 {
-			continue
-		}
-		n++
-		r := tc.BVar("r", x.refSort())
-		existed := tc.And(x.intLt(x.refConst(0), r), x.intLt(r, entry.alloc))
-		var goal *Term
-		switch {
-		case strings.HasPrefix(k, "obj:"):
-			var exc []*Term
-			for _, m := range mods {
-				if m.place != nil && m.place.kind == pkHeap && covers(m.prefix, k) {
-					exc = append(exc, tc.Eq(r, m.place.ref))
-				}
-			}
-			goal = tc.Forall([]*Term{r}, tc.Implies(tc.And(existed, tc.Not(tc.Or(exc...))), tc.Eq(tc.Select(h1, r), tc.Select(h0, r))))
-		case strings.HasPrefix(k, "elem:"):
-			i := tc.BVar("i", x.refSort())
-			var exc []*Term
-			for _, m := range mods {
-				if m.sl != nil && covers(m.prefix, k) {
-					exc = append(exc, tc.And(tc.Eq(r, m.sl.arr), x.intLe(x.intAdd(m.sl.off, m.lo), i), x.intLt(i, x.intAdd(m.sl.off, m.hi))))
-				}
-				if m.place != nil && m.place.kind == pkElem && covers(m.prefix, k) {
-					exc = append(exc, tc.And(tc.Eq(r, m.place.arr), tc.Eq(i, m.place.idx)))
-				}
-			}
-			goal = tc.Forall([]*Term{r, i}, tc.Implies(tc.And(existed, tc.Not(tc.Or(exc...))), tc.Eq(tc.Select(tc.Select(h1, r), i), tc.Select(tc.Select(h0, r), i))))
-		case strings.HasPrefix(k, "mapdom:"), strings.HasPrefix(k, "mapval:"), strings.HasPrefix(k, "mapcard:"):
-			mk := k[strings.Index(k, ":")+1:]
-			var exc []*Term
-			for _, m := range mods {
-				if m.mapRef != nil && (mk == m.mapKey || strings.HasPrefix(mk, m.mapKey+".")) {
-					exc = append(exc, tc.Eq(r, m.mapRef))
-				}
-			}
-			goal = tc.Forall([]*Term{r}, tc.Implies(tc.And(existed, tc.Not(tc.Or(exc...))), tc.Eq(tc.Select(h1, r), tc.Select(h0, r))))
-		case strings.HasPrefix(k, "glob:"):
-			goal = tc.Eq(h1, h0)
-		default:
+		goal := x.frameCond(mods, k, entry, rst)
+		if goal == nil || goal.isTrue() {
 			continue
 		}
 		x.obligeNamed("FRAME", k, fmt.Sprintf("only the modifies set changes in heap component %s", k), rg, goal, fr.fn.Pos())
 	}
-	_ = n
 }
